@@ -29,7 +29,8 @@ Record srev := mkS {
   s_ts4 : Z;                             (* timestamp * 4 *)
   s_tz : Z;
   s_msg : bytes;
-  s_mpaths : list path                   (* observed order of the M commands (see FastIO.order_by) *)
+  s_mpaths : list path;                  (* observed order of the M commands (see FastIO.order_by) *)
+  s_dpaths : list path                   (* observed order of the D commands (see FastIO.kind_dels) *)
 }.
 
 Definition LT : N := 60.
@@ -95,7 +96,7 @@ Definition export_commit (plain : bool) (h : list srev) (order : list nat) (r : 
       (match s_parents s with [] => true | _ => false end)
       (hd_error pmarks) (tl pmarks) committer a m
       (stream_secs (s_ts4 s)) (stream_tz (s_tz s)) (s_msg s)
-      (filecmds plain old (s_inv s) (s_mpaths s)).
+      (filecmds plain old (s_inv s) (s_mpaths s) (s_dpaths s)).
 
 Definition export_commits (plain : bool) (h : list srev) (tip : nat) : list xcommit :=
   let order := export_order h tip in
@@ -156,7 +157,7 @@ Definition export_tags (plain rewrite notags : bool) (order : list nat) (tags : 
                   | Some k =>
                       let ref := REFS_TAGS ++ fst t in
                       if plain && negb (check_ref_format ref)
-                      then (if rewrite then [(sanitize_ref ref, k)] else [])
+                      then (if rewrite then [(REFS_TAGS ++ sanitize_ref (fst t), k)] else [])
                       else [(ref, k)]
                   end
               end) tags.
@@ -175,7 +176,9 @@ Record drev := mkD {
 
 (* CommitHandler._format_name_email *)
 Definition format_name_email (ne : nm_em) : bytes :=
-  if nonempty (snd ne) then fst ne ++ [32; 60] ++ snd ne ++ [62] else fst ne.
+  if nonempty (snd ne)
+  then (if nonempty (fst ne) then fst ne ++ [32; 60] ++ snd ne ++ [62] else [60] ++ snd ne ++ [62])
+  else fst ne.
 
 (* CommitHandler._save_author_info *)
 Definition author_prop (x : xcommit) : option bytes :=
@@ -205,15 +208,15 @@ Record ist := mkI {
   i_tags : list (bytes * nat)            (* self.tags: name -> mark *)
 }.
 
-(* commit_handler + CommitHandler.process.  [props]: the stream carries `property` lines, whose names
-   reach Revision(properties=...) as bytes: ValueError("invalid property name b'branch-nick'") *)
-Definition import_one (props : bool) (s : ist) (x : xcommit) : res ist :=
+(* reset_handler (a `reset` without `from` clears the ref's last commit), then commit_handler +
+   CommitHandler.process *)
+Definition import_one (s : ist) (x : xcommit) : res ist :=
+  let last := if x_reset x then None else aget bytes_eqb (last_ids (i_rt s)) MASTER in
   let parents := match x_from x with
                  | Some k => [k]
-                 | None => match aget bytes_eqb (last_ids (i_rt s)) MASTER with Some l => [l] | None => [] end
+                 | None => match last with Some l => [l] | None => [] end
                  end ++ x_merges x in
   let t := track_heads_for_ref (i_rt s) MASTER (x_mark x) parents in
-  if props then Fail "ValueError" else
   let b := match parents with
            | p :: _ => match aget Nat.eqb (i_revs s) p with Some d => d_inv d | None => [] end
            | [] => []
@@ -223,8 +226,8 @@ Definition import_one (props : bool) (s : ist) (x : xcommit) : res ist :=
                (4 * x_secs x)%Z (x_tz x) (x_msg x) (fst r) in
   Ok (mkI (i_revs s ++ [(x_mark x, d)]) t (snd r) (i_tags s)).
 
-(* reset_handler for the tag resets: a ref that no longer starts with refs/tags/ (a rewritten name
-   can lose the prefix: ".x" -> "refs/tags_x") is tracked as a branch head *)
+(* reset_handler for the tag resets (a ref outside refs/tags/ would be tracked as a branch head; the
+   exporter no longer produces one) *)
 Definition import_tag (s : ist) (t : bytes * nat) : ist :=
   if prefixb REFS_TAGS (fst t)
   then mkI (i_revs s) (i_rt s) (i_fresh s) (aset bytes_eqb (i_tags s) (skipn 10 (fst t)) (snd t))
@@ -248,12 +251,17 @@ Fixpoint dst_revno (fuel : nat) (s : ist) (m : nat) : Z :=
   | S f => match dparents s m with [] => 1%Z | p :: _ => (1 + dst_revno f s p)%Z end
   end.
 
-(* BranchUpdater: trunk = last ref; its first head; tags inside the tip's ancestry *)
+(* BranchUpdater: trunk = refs/heads/master if it has a head, else the last ref seen; its first head;
+   tags inside the tip's ancestry *)
+Definition heads_of (s : ist) (ref : bytes) : list nat :=
+  flat_map (fun h : nat * list bytes => if existsb (bytes_eqb ref) (snd h) then [fst h] else []) (heads (i_rt s)).
 Definition final_tip (s : ist) : option nat :=
   match last_ref (i_rt s) with
   | None => None
-  | Some ref => hd_error (flat_map (fun h : nat * list bytes =>
-                                      if existsb (bytes_eqb ref) (snd h) then [fst h] else []) (heads (i_rt s)))
+  | Some ref => match heads_of s MASTER with
+                | k :: _ => Some k
+                | [] => hd_error (heads_of s ref)
+                end
   end.
 
 (* ---- observations ---- *)
@@ -279,8 +287,8 @@ Definition oxcommit (x : xcommit) : obs :=
 Definition sort_tags (l : list (bytes * nat)) : list (bytes * nat) :=
   sort_by (fun a b => bytes_ltb (fst a) (fst b)) l.
 
-Definition import_stream (props : bool) (xs : list xcommit) (tagcmds : list (bytes * nat)) : res ist :=
-  do s <- fold_left (fun rs x => do s <- rs; import_one props s x) xs
+Definition import_stream (xs : list xcommit) (tagcmds : list (bytes * nat)) : res ist :=
+  do s <- fold_left (fun rs x => do s <- rs; import_one s x) xs
                     (Ok (mkI [] (mkRT [] [] None) 1000 []));
   Ok (fold_left import_tag tagcmds s).
 
@@ -296,15 +304,18 @@ Definition oimported (s : ist) : obs :=
           OZ (Z.of_nat tip); OZ (dst_revno (S n) s tip); OZ (Z.of_nat n)]
   end.
 
-(* one correspondence case: export, then import *)
-Definition run_case (plain rewrite notags props : bool) (h : list srev) (tip : nat)
+(* one correspondence case: export, then import ([doimport] = false: only the export is compared --
+   rich streams of histories whose import depends on unmodelled parts, see notes/C44.md) *)
+Definition run_case (plain rewrite notags doimport : bool) (h : list srev) (tip : nat)
            (tags : list (bytes * option nat)) : obs :=
   let xs := export_commits plain h tip in
   let tagcmds := export_tags plain rewrite notags (export_order h tip) tags in
   OL [OL (map (fun r => OZ (Z.of_nat r)) (export_order h tip));
       OL (map oxcommit xs);
       OL (map (fun t : bytes * nat => OL [OB (fst t); OZ (Z.of_nat (snd t))]) tagcmds);
-      match import_stream (negb plain && props) xs tagcmds with
-      | Fail e => OE e
-      | Ok s => oimported s
-      end].
+      if doimport
+      then match import_stream xs tagcmds with
+           | Fail e => OE e
+           | Ok s => oimported s
+           end
+      else OT "skipped"%string].
